@@ -1,5 +1,11 @@
-(* C20 — the property theorems, and nothing else. *)
-From VF Require Import LockSet.Model LockSet.Spec LockSet.Proofs.
+(* C20 — the property theorems, and nothing else.  Lock table =
+   ByteRangeLockSet (Model.v); [wf], [compatible], [kind_at],
+   [expected_kind], [p_step], [trace_ok], [valid_ops] are in Spec.v. *)
+From VF Require Import LockSet.Model LockSet.Spec LockSet.Proofs
+  LockSet.ProofsBase LockSet.ProofsSet LockSet.ProofsHist.
+Open Scope N_scope.
+
+(* ---- Test ----------------------------------------------------------------- *)
 
 (* A lock test reports a conflict only for an entry of the table that
    really conflicts with the request ... *)
@@ -13,3 +19,186 @@ Theorem test_misses_no_conflict : forall l q,
   sorted l -> test l q = None -> forall c, In c l -> conflicts c q = false.
 Proof. exact test_none. Qed.
 Print Assumptions test_misses_no_conflict.
+
+(* Test = None exactly when no entry conflicts. *)
+Theorem test_iff_no_conflict : forall l q, wf l = true ->
+  (test l q = None <-> forallb (fun c => negb (conflicts c q)) l = true).
+Proof. exact test_none_iff. Qed.
+Print Assumptions test_iff_no_conflict.
+
+(* The same, per byte: no conflict iff no byte of the request is held by
+   another owner unless both sides are shared. *)
+Theorem test_iff_denied : forall l q, wf l = true -> lstart q < lend q ->
+  (test l q = None <->
+   forall o b k, o <> lowner q -> covers q (lowner q) b = true -> kind_at l o b = Some k ->
+     k <> Exclusive /\ ltyp q <> Exclusive).
+Proof. exact test_none_bytes. Qed.
+Print Assumptions test_iff_denied.
+
+(* An owner's own locks never block it. *)
+Theorem own_locks_never_conflict : forall l q c,
+  test l q = Some c -> lowner c <> lowner q.
+Proof. exact test_other_owner. Qed.
+Print Assumptions own_locks_never_conflict.
+
+(* LOCKT answers DENIED(c) exactly when LOCK would. *)
+Theorem lockt_iff_lock : forall l ow ex s e c,
+  snd (step l (OTest ow ex s e)) = Denied c <-> snd (step l (OLock ow ex s e)) = Denied c.
+Proof. exact ProofsHist.lockt_iff_lock. Qed.
+Print Assumptions lockt_iff_lock.
+
+Theorem lockt_ok_iff_lock_granted : forall l ow ex s e, wf l = true -> s < e ->
+  (snd (step l (OTest ow ex s e)) = TestOk <->
+   exists d, snd (step l (OLock ow ex s e)) = Granted d).
+Proof. exact lockt_ok_iff_lock. Qed.
+Print Assumptions lockt_ok_iff_lock_granted.
+
+(* ---- Set ------------------------------------------------------------------ *)
+
+(* Set preserves the list invariant, for every request type. *)
+Theorem wf_preserved : forall l q,
+  wf l = true -> lstart q < lend q -> wf (set_list (set l q)) = true.
+Proof. exact set_wf. Qed.
+Print Assumptions wf_preserved.
+
+(* The two panics of Set() are unreachable. *)
+Theorem set_never_panics : forall l q,
+  wf l = true -> lstart q < lend q -> set_panic (set l q) = false.
+Proof. exact set_no_panic. Qed.
+Print Assumptions set_never_panics.
+
+(* Per byte: the requester's bytes in [start,end) become the requested type
+   (or unlocked); every other byte of every owner is unchanged. *)
+Theorem set_refines_bytes : forall l q o b,
+  wf l = true -> lstart q < lend q ->
+  kind_at (set_list (set l q)) o b = expected_kind l q o b.
+Proof. exact set_bytes. Qed.
+Print Assumptions set_refines_bytes.
+
+Theorem unlock_releases_exactly : forall l ow s e o b, wf l = true -> s < e ->
+  kind_at (fst (step l (OUnlock ow s e))) o b =
+  if (o =? ow) && (s <=? b) && (b <? e) then None else kind_at l o b.
+Proof. exact unlock_bytes. Qed.
+Print Assumptions unlock_releases_exactly.
+
+Theorem lock_grants_exactly : forall l ow ex s e d o b, wf l = true -> s < e ->
+  snd (step l (OLock ow ex s e)) = Granted d ->
+  kind_at (fst (step l (OLock ow ex s e))) o b =
+  if (o =? ow) && (s <=? b) && (b <? e) then Some (ty_of ex) else kind_at l o b.
+Proof. exact lock_bytes. Qed.
+Print Assumptions lock_grants_exactly.
+
+(* The returned delta is the change of the number of entries (no
+   hypothesis on the table). *)
+Theorem delta_is_length_change : forall l q,
+  set_delta (set l q) = (Z.of_nat (length (set_list (set l q))) - Z.of_nat (length l))%Z.
+Proof. exact set_delta_length. Qed.
+Print Assumptions delta_is_length_change.
+
+(* On well-formed tables the entry-wise and the per-byte formulation of
+   exclusion coincide. *)
+Theorem compatible_iff_excl_bytes : forall l, wf l = true ->
+  (compatible l = true <-> excl_bytes l).
+Proof. exact compatible_excl. Qed.
+Print Assumptions compatible_iff_excl_bytes.
+
+(* Set keeps different owners apart when Test found no conflict (or when
+   unlocking). *)
+Theorem set_preserves_exclusion : forall l q,
+  wf l = true -> lstart q < lend q -> excl_bytes l ->
+  (ltyp q <> Unlocked -> forall c, In c l -> conflicts c q = false) ->
+  excl_bytes (set_list (set l q)).
+Proof.
+  exact (fun l q Hwf Hne Hex Hnc =>
+    set_excl l q Hwf Hne Hex
+      (fun Ht => Hnc (fun E => Ht (f_equal tn E)))).
+Qed.
+Print Assumptions set_preserves_exclusion.
+
+(* ---- all histories -------------------------------------------------------- *)
+
+(* Every table reachable by any sequence of requests (raw Set calls
+   included) is well formed. *)
+Theorem wf_all_histories : forall ops, valid_ops ops -> wf (state_after ops) = true.
+Proof. exact history_wf. Qed.
+Print Assumptions wf_all_histories.
+
+(* With Test-then-Set (the way OpenedFile drives the table), no two entries
+   of different owners overlap unless both are shared ... *)
+Theorem exclusion : forall ops, valid_ops ops -> no_raw ops ->
+  compatible (state_after ops) = true.
+Proof. exact history_compatible. Qed.
+Print Assumptions exclusion.
+
+(* ... i.e. no byte has two owners unless both hold it shared. *)
+Theorem exclusion_per_byte : forall ops, valid_ops ops -> no_raw ops ->
+  forall o1 o2 b k1 k2, o1 <> o2 ->
+    kind_at (state_after ops) o1 b = Some k1 -> kind_at (state_after ops) o2 b = Some k2 ->
+    k1 = Shared /\ k2 = Shared.
+Proof. exact history_excl_bytes. Qed.
+Print Assumptions exclusion_per_byte.
+
+(* The monitor link: the predicate Corr.v evaluates on implementation
+   traces holds on every trace of the model. *)
+Theorem monitor_holds_on_model : forall ops, valid_ops ops -> trace_ok [] ops = true.
+Proof. exact trace_ok_all. Qed.
+Print Assumptions monitor_holds_on_model.
+
+(* ---- offsetLengthToStartEnd ----------------------------------------------- *)
+
+Theorem offset_length_exact : forall off len, off <= max_u64 -> len <= max_u64 ->
+  offset_length_to_start_end off len =
+  if len =? 0 then None
+  else if len =? max_u64 then Some (off, max_u64)
+  else if off + len <=? max_u64 then Some (off, off + len) else None.
+Proof. exact olse_spec. Qed.
+Print Assumptions offset_length_exact.
+
+Theorem offset_length_range : forall off len s e, off <= max_u64 -> len <= max_u64 ->
+  offset_length_to_start_end off len = Some (s, e) ->
+  s = off /\ s <= e /\ e <= max_u64 /\ (s < e \/ (off = max_u64 /\ len = max_u64)).
+Proof. exact olse_range. Qed.
+Print Assumptions offset_length_range.
+
+(* Full statement wanted: forall off len <= max_u64, Some (s, e) -> s < e.
+   It is false (see [offset_length_nonempty_refuted]); what holds: *)
+Theorem offset_length_nonempty_partial : forall off len s e,
+  off < max_u64 -> len <= max_u64 ->
+  offset_length_to_start_end off len = Some (s, e) -> s < e.
+Proof. exact olse_nonempty. Qed.
+Print Assumptions offset_length_nonempty_partial.
+
+Theorem offset_length_nonempty_refuted :
+  exists off len s e, off <= max_u64 /\ len <= max_u64 /\
+    offset_length_to_start_end off len = Some (s, e) /\ ~ s < e.
+Proof. exact olse_nonempty_refuted. Qed.
+Print Assumptions offset_length_nonempty_refuted.
+
+(* ---- non-vacuity ---------------------------------------------------------- *)
+
+Example demo_valid : valid_ops demo_ops /\ no_raw demo_ops.
+Proof. split; repeat constructor. Qed.
+
+(* A reachable table after a split (+2), two denials, a merge (-3) and a
+   range ending at 2^64-1. *)
+Example demo_run : run [] demo_ops =
+  ([mkLock 0 1 2 Shared; mkLock 0 10 1 Shared; mkLock 2 3 2 Shared;
+    mkLock 12 18446744073709551615 3 Exclusive],
+   [Granted 1; Granted 2; Granted 1; Denied (mkLock 0 3 1 Shared);
+    Denied (mkLock 3 6 1 Exclusive); Granted 1; Granted (-3); Granted 1; Granted 1]).
+Proof. vm_compute. reflexivity. Qed.
+
+Example demo_monitor : trace_ok [] demo_ops = true.
+Proof. vm_compute. reflexivity. Qed.
+
+(* Without Test, Set does produce incompatible tables: [no_raw] is needed. *)
+Example raw_set_breaks_exclusion :
+  compatible (state_after [ORawSet 1 Exclusive 0 5; ORawSet 2 Exclusive 3 8]) = false.
+Proof. vm_compute. reflexivity. Qed.
+
+(* The monitor is not trivially true: it rejects wrong post-states. *)
+Example monitor_rejects :
+  p_step [mkLock 0 10 1 Shared] [mkLock 0 10 1 Shared] (OUnlock 1 3 6) (Granted 0) = "bytes"%string
+  /\ p_step [mkLock 0 10 1 Exclusive] [mkLock 0 10 1 Exclusive; mkLock 3 6 2 Shared]
+       (OLock 2 false 3 6) (Granted 1) = "granted-despite-conflict"%string.
+Proof. vm_compute. split; reflexivity. Qed.
